@@ -115,20 +115,24 @@ def decodeRune (r1 r2 : Nat) : Nat :=
     (r1 - 0xD800) * 1024 + (r2 - 0xDC00) + 0x10000
   else 0xFFFD
 
-/-- Whole-input decode: the loop of `utf16Decoder.Transform` with `atEOF = true`. -/
-def utf16All (be : Bool) : Bytes → Bytes
-  | [] => []
-  | [_] => fffd
-  | a :: b :: rest =>
-    let tail := utf16All be rest
-    if isSurr (unit16 be a b) = false then utf8 (unit16 be a b) ++ tail
-    else
-      match rest with
-      | c :: d :: rest' =>
-        if isLow (unit16 be c d) = true then
-          utf8 (decodeRune (unit16 be a b) (unit16 be c d)) ++ utf16All be rest'
-        else fffd ++ tail
-      | _ => fffd ++ tail
+/-- Whole-input decode, unit by unit: the loop of `utf16Decoder.Transform` with
+`atEOF = true`.  The first argument is a surrogate unit read but not yet resolved (the Go
+loop looks one unit ahead instead; carrying the unit keeps exactly one recursive call per
+step, so the definition is structural and runs in linear time). -/
+def utf16Go (be : Bool) : Option Nat → Bytes → Bytes
+  | none, [] => []
+  | none, [_] => fffd                                   -- single trailing byte
+  | none, a :: b :: rest =>
+    if isSurr (unit16 be a b) = true then utf16Go be (some (unit16 be a b)) rest
+    else utf8 (unit16 be a b) ++ utf16Go be none rest
+  | some _, [] => fffd                                  -- lone surrogate at the end
+  | some _, [_] => fffd ++ fffd                         -- lone surrogate + trailing byte
+  | some u, c :: d :: rest =>
+    if isLow (unit16 be c d) = true then utf8 (decodeRune u (unit16 be c d)) ++ utf16Go be none rest
+    else if isSurr (unit16 be c d) = true then fffd ++ utf16Go be (some (unit16 be c d)) rest
+    else fffd ++ (utf8 (unit16 be c d) ++ utf16Go be none rest)
+
+def utf16All (be : Bool) (input : Bytes) : Bytes := utf16Go be none input
 
 /-- One byte of the streaming automaton; the state is the list of bytes not yet decoded
 (at most 3: a surrogate unit plus one byte) — exactly what `transform.Reader` keeps in its
